@@ -533,9 +533,9 @@ func runStress(seed int64, dir string, scale int) {
 	sq, err := ctlog.NewSQLiteBackend(ctx, db, quiet)
 	must(err)
 	for _, ph := range []stressPhase{
-		{"p1-busy-heavy-1cpu", 1, 24, 8, 2, 1000 * scale, 12000 * int64(scale)},
-		{"p2-stale-heavy-1cpu", 1, 8, 24, 2, 1000 * scale, 12000 * int64(scale)},
-		{"p3-even-allcpu", ncpu, 16, 16, 2, 1000 * scale, 12000 * int64(scale)},
+		{"p1-busy-heavy-1cpu", 1, 24, 8, 2, 800 * scale, 12000 * int64(scale)},
+		{"p2-stale-heavy-1cpu", 1, 8, 24, 2, 800 * scale, 12000 * int64(scale)},
+		{"p3-even-allcpu", ncpu, 16, 16, 2, 800 * scale, 12000 * int64(scale)},
 	} {
 		runStressPhase(seed, "sqlite", sq, ph, base, stats)
 	}
@@ -560,7 +560,7 @@ func runStress(seed int64, dir string, scale int) {
 		b     ctlog.LockBackend
 		drain func() []wireLog
 	}{{"dynamo", dyB, dy.take}, {"etagh", ehB, s3h.take}, {"etagv", evB, s3v.take}} {
-		runStressPhase(seed, x.name, x.b, stressPhase{"even-allcpu", ncpu, 8, 8, 1, 500 * scale, 3000 * int64(scale)}, base, stats)
+		runStressPhase(seed, x.name, x.b, stressPhase{"even-allcpu", ncpu, 8, 8, 1, 400 * scale, 3000 * int64(scale)}, base, stats)
 		x.drain()
 	}
 	for _, bad := range append(append(dy.bad, s3h.bad...), s3v.bad...) {
